@@ -626,3 +626,108 @@ Section Main.
         eapply pure_branch_spec; eauto. lia.
   Qed.
 End Main.
+
+(* ------------------------------------------------------------------------------------------- *)
+(* add_change = pricing phase, then the top-up *)
+
+Section Split.
+  Context {O : Type}.
+  Variable orc : @oracle O.
+
+  Lemma asset_branch_split fuel addr extra it ot fee s (o : O) :
+    asset_branch orc fuel addr extra it ot fee s o =
+    bindM (asset_branch_pre orc fuel addr extra it ot fee) (finish_change (O:=O)) s o.
+  Proof.
+    unfold asset_branch, asset_branch_pre.
+    do 6 (rewrite bindM_assoc; apply bindM_ext; intros).
+    rewrite bindM_assoc. apply bindM_ext; intros. reflexivity.
+  Qed.
+
+  Lemma add_change_split fuel addr extra s (o : O) :
+    add_change orc fuel addr extra s o =
+    bindM (add_change_pre orc fuel addr extra) (finish_change (O:=O)) s o.
+  Proof.
+    unfold add_change, add_change_pre.
+    rewrite bindM_assoc; apply bindM_ext; intros sg s1 o1.
+    destruct (s_fee sg); [reflexivity|].
+    do 4 (rewrite bindM_assoc; apply bindM_ext; intros).
+    destruct a2; [reflexivity|].
+    rewrite bindM_assoc; apply bindM_ext; intros.
+    destruct (value_partial_cmp a0 a2) as [[ | | ]|]; try reflexivity.
+    - rewrite bindM_assoc; apply bindM_ext; intros.
+      rewrite bindM_assoc; apply bindM_ext; intros. reflexivity.
+    - rewrite bindM_assoc; apply bindM_ext; intros.
+      destruct (has_assets (multiasset_of a3)).
+      + apply asset_branch_split.
+      + rewrite bindM_assoc. unfold finish_change. cbn [snd fst].
+        symmetry. etransitivity; [|apply bindM_ret_r]. apply bindM_ext; intros. reflexivity.
+  Qed.
+End Split.
+
+(* ------------------------------------------------------------------------------------------- *)
+(* the theorems *)
+
+Section Theorems.
+  Context {O : Type}.
+  Variable orc : @oracle O.
+  Variable e : env.
+  Hypothesis Hfee : fee_exact e orc.
+
+  Lemma top_up_last_spec t u s s' (o o' : O) :
+    top_up_last t s o = mkOut (Ok u) s' o' -> exists outs', s' = set_s_outputs outs' s.
+  Proof.
+    unfold top_up_last. intros H. minv H as sg s1 o1 H1 H2. apply get_inv in H1 as (-> & -> & ->).
+    destruct (rev (s_outputs s)) as [|last before]; [apply lift_inv in H2 as (? & _); discriminate|].
+    minv H2 as amount s1 o1 H3 H4. apply lift_inv in H3 as (_ & -> & ->).
+    apply put_inv in H4 as (-> & _). eauto.
+  Qed.
+
+  Lemma finish_change_spec bg b s s' (o o' : O) :
+    finish_change bg s o = mkOut (Ok b) s' o' ->
+    b = fst bg /\ (snd bg = None -> s' = s) /\ exists outs', s' = set_s_outputs outs' s.
+  Proof.
+    unfold finish_change. destruct (snd bg) as [t|].
+    - intros H. minv H as u s1 o1 H1 H2. apply ret_inv in H2 as (-> & -> & ->).
+      split; auto. split; [discriminate|].
+      destruct (value_is_zero t).
+      + apply ret_inv in H1 as (_ & -> & _). exists (s_outputs s). symmetry; apply set_outputs_same.
+      + eapply top_up_last_spec; eauto.
+    - intros H. apply ret_inv in H as (-> & -> & ->). repeat split; auto.
+      exists (s_outputs s). symmetry; apply set_outputs_same.
+  Qed.
+
+  (* C06_policy: the fee add_change stores respects the request *)
+  Theorem add_change_policy fuel addr extra b s s' (o o' : O) :
+    add_change orc fuel addr extra s o = mkOut (Ok b) s' o' ->
+    exists F, s_fee s' = Some F /\ s_fee_request s' = s_fee_request s /\ policy_ok (s_fee_request s) F.
+  Proof.
+    intros H. rewrite add_change_split in H. minv H as bg s1 o1 Hpre Hfin.
+    apply (add_change_pre_spec orc e Hfee) in Hpre as (_ & (x & Hf & _ & Hr & _) & _).
+    apply finish_change_spec in Hfin as (_ & _ & outs' & ->).
+    exists (get_new_fee (s_fee_request s) x). rewrite fee_set_outputs, req_set_outputs. repeat split; auto.
+    unfold policy_ok, get_new_fee. destruct (s_fee_request s); auto.
+    destruct (N.ltb_spec x f); lia.
+  Qed.
+
+  (* C06_sufficient *)
+  Theorem add_change_fee_sufficient fuel addr extra b s s' (o o' : O) :
+    add_change orc fuel addr extra s o = mkOut (Ok b) s' o' ->
+    (forall y, s_fee_request s <> FeeExactly y) ->
+    slack_ok e orc fuel addr extra s o = true ->
+    sufficient e s'.
+  Proof.
+    intros H Hne Hslack. unfold slack_ok in Hslack. rewrite H in Hslack. cbn [out_st] in Hslack.
+    rewrite add_change_split in H. minv H as bg s1 o1 Hpre Hfin. rewrite Hpre in Hslack. cbn [out_res out_st] in Hslack.
+    apply (add_change_pre_spec orc e Hfee) in Hpre as (_ & (x & Hf & Hc & Hr & Hn) & Hg).
+    apply finish_change_spec in Hfin as (-> & Hsame & outs' & ->).
+    specialize (Hn Hne). set (F := get_new_fee (s_fee_request s) x) in *.
+    exists F. rewrite fee_set_outputs. split; auto.
+    rewrite fee_set_outputs, Hf, outputs_set_outputs in Hslack.
+    destruct bg as [b g]; cbn [fst snd] in *. destruct b.
+    - apply N.leb_le in Hslack.
+      unfold need, need_w in *. rewrite core_set_outputs, outputs_set_outputs. nia.
+    - assert (g = None) as -> by (destruct g; auto; assert (false = true) by (apply Hg; discriminate); discriminate).
+      rewrite (Hsame eq_refl). pose proof (head_size_bounds F).
+      pose proof (need_w_mono_w e s1 9 (head_size F)). unfold need. lia.
+  Qed.
+End Theorems.
